@@ -112,7 +112,7 @@ class Ctx:
         with open(ov, "w") as f:
             json.dump({"Replace": {os.path.join(REPO, "apps", app, "zz_verif_test.go"): os.path.join(HARNESS, "overlay", "apps_verif_test.go")}}, f)
         e = dict(os.environ)
-        e.update(GOPROXY="off", GOSUMDB="off", GOTOOLCHAIN="local", VERIF_CASES=cases_path, VERIF_OUT=out_path)
+        e.update(GOPROXY="off", GOSUMDB="off", GOTOOLCHAIN="local", VERIF_CASES=cases_path, VERIF_OUT=out_path, VERIF_APP=app)
         e.pop("GOFLAGS", None)      # in-repo builds use the default read-only module mode (go.mod untouched)
         cmd = ["go", "test", "-tags", "verif", "-vet=off", "-count=1", "-overlay", ov, "-run", "^TestVerifApps$", "-timeout", "%ds" % timeout]
         if race:
